@@ -562,6 +562,10 @@ pub fn monitor_lines(e: &Exec, nthreads: usize) -> Vec<String> {
         let t = tix(*t0);
         match ev {
             Ev::Point(PointKind::Start) | Ev::Point(PointKind::User(_)) => {}
+            // where a thread may be interrupted inside a critical section: no event of the protocol
+            Ev::Point(PointKind::Hook(Point::InSection { .. })) => {}
+            // a non-blocking acquisition attempt: the acquisition, if any, is the `Acquired` note that follows
+            Ev::Point(PointKind::Hook(Point::TryLock { .. })) => {}
             // the end of a read section of a slot: followed (in the same run segment) by a hit or a miss
             // note unless it is the re-read after `try_write`
             Ev::Note(Note::Released { write: false, what: cstree::verif::LockKind::Slot, .. }) => {
